@@ -2,6 +2,7 @@
 package c12
 
 import (
+	"sync"
 	"strconv"
 	"strings"
 	"testing"
@@ -19,6 +20,7 @@ import (
 //	mkd|mki ...     build with a REAL shipped signer (recorded: announced SigInfo, bytes handed, value)
 //	fmk <make op>   run a make op with a failing entropy source (crypto/rand.Reader errors) on the history's
 //	                signer instance; the packets built afterwards must be unaffected
+//	par <k> <make op>  k goroutines build packets with the history's one signer instance concurrently
 //	hold / valheld  remember the packet just built (in the buffers it was returned in); after the NEXT packet
 //	                was built with the same signer instance, decode and validate the remembered one
 //	val             decode the untampered bytes, compare the parser's signed portion with what the
@@ -30,8 +32,8 @@ import (
 //	flip <bit> <cuts>   one position (replays)
 func gen(g *common.Gen) {
 	r := g.R
-	dataSigners := []string{"sha", "hmac", "ecc", "rsa", "hmaccert", "ecccert", "rsacert", "sha", "hmac", "ecc", "rsa", "none", "t:72:60"}
-	intSigners := []string{"shaint", "hmacint", "eccint", "rsaint", "sha", "hmac", "ecc", "shaint", "hmacint", "eccint", "rsaint", "none", "t:72:60"}
+	dataSigners := []string{"sha", "hmac", "ecc", "rsa", "hmaccert", "ecccert", "rsacert", "sha", "hmac", "hmac", "ecc", "rsa", "none", "t:72:60", "ecc521", "ecc384", "ecc224"}
+	intSigners := []string{"shaint", "hmacint", "eccint", "rsaint", "sha", "hmac", "ecc", "shaint", "hmacint", "hmacint", "eccint", "rsaint", "none", "t:72:60", "eccint521", "eccint384", "ecc521"}
 	for i := 0; i < g.N; i++ {
 		g.Op("new")
 		sh := c03.Shape{Big: r.Chance(1, 10)}
@@ -122,6 +124,19 @@ func gen(g *common.Gen) {
 				g.Op("flip %d %s", r.Intn(size*8), common.Pick(r, []string{"c", "own", c03.GenCuts(r, size)}))
 			}
 			g.Stat("flip-sampled")
+		}
+		// one signer INSTANCE used by several goroutines at the same moment (the engine shares its
+		// command signer): every packet they build must decode and be accepted
+		if tok := strings.Fields(mk); tok[len(tok)-1] != "none" && r.Chance(1, 2) {
+			pm := c03.GenMkd(r, c03.Shape{}, g, tok[len(tok)-1])
+			if tok[0] == "mki" {
+				pm = c03.GenMki(r, c03.Shape{}, g, tok[len(tok)-1])
+				f := strings.Fields(pm)
+				f[8] = common.Hex(r.Bytes(r.Range(1, 1500)))
+				pm = strings.Join(f, " ")
+			}
+			g.Op("par %d %s", r.Range(3, 6), pm)
+			g.Stat("par")
 		}
 		g.Op("cmp")
 	}
@@ -218,6 +233,67 @@ func exec(op string) string {
 			})
 		}()
 		return strings.SplitN(out, " ", 2)[0]
+	case "par":
+		// f[1] goroutines build packets of the shape f[2:] (names made distinct) with the history's ONE
+		// signer instance at the same time; verdict letter per goroutine: a/n all accepted / no validator,
+		// else the first failure: x build error, e decode error, r rejected, c signed portion differs, p panic
+		k := common.Atoi(f[1])
+		tok := f[len(f)-1]
+		c03.SignerFor(tok)
+		rounds := 80
+		if strings.HasPrefix(tok, "rsa") {
+			rounds = 5
+		}
+		out := make([]byte, k)
+		var wg sync.WaitGroup
+		start := make(chan struct{})
+		for w := 0; w < k; w++ {
+			wg.Add(1)
+			go func(w int) {
+				defer wg.Done()
+				res := byte('a')
+				nov := false
+				defer func() {
+					if r := recover(); r != nil {
+						res = 'p'
+					}
+					if res == 'a' && nov {
+						res = 'n'
+					}
+					out[w] = res
+				}()
+				<-start
+				for i := 0; i < rounds && res == 'a'; i++ {
+					g := append([]string{}, f[2:]...)
+					if g[1] == "/" {
+						g[1] = ""
+					}
+					g[1] += "/8:" + common.Hex([]byte{byte(w), byte(i)})
+					var b *c03.Built
+					if g[0] == "mkd" {
+						_, b = c03.MakeData(g)
+					} else {
+						_, b = c03.MakeInterest(g)
+					}
+					if b == nil {
+						res = 'x'
+						break
+					}
+					v, cov := decodeValidate(b, b.Wire, "c")
+					switch {
+					case v == "e" || v == "r":
+						res = v[0]
+					case b.Rec != nil && b.Rec.Handed && string(cov) != string(b.Rec.Covered):
+						res = 'c'
+					case v == "n":
+						nov = true
+					}
+				}
+			}(w)
+		}
+		close(start)
+		wg.Wait()
+		return string(out)
 	case "hold":
 		if last == nil {
 			return "skip"
